@@ -538,6 +538,9 @@ struct Oracle {
 // never executed in-process
 struct UbGuard {
     bool live = false, stuck = false, saslNull = true, v2 = false, s2req = false, digestStep2 = false;
+    bool plainStep0 = false;   // a PLAIN object has answered an empty <auth/> with an empty challenge and still waits for credentials
+    bool stock = false;        // replies finish within the step (getPassword-only checker)
+    QMap<QString, QString> table;
     static bool knownMech(const QString &m) { return m == "PLAIN" || m == "DIGEST-MD5" || m == "ANONYMOUS"; }
     bool wouldBeUb(const QStringList &w, TableChecker &ck, bool open)
     {
@@ -550,25 +553,31 @@ struct UbGuard {
             return ck.pendingIsPw[i] && ck.pending[i]->error() == QXmppPasswordReply::NoError && v2 && !s2req;
         }
         if (!live || stuck) return false;
-        if (w[0] == "resp2") return !saslNull && digestStep2 && !s2req;
+        if (w[0] == "resp2" && !saslNull && digestStep2 && !s2req) return true;
+        if (stock && (w[0] == "resp1" || w[0] == "resp2") && !saslNull && plainStep0 && v2 && !s2req) {
+            // the password reply arrives within this step: success on a SASL2 exchange whose request has been reset by <abort/>
+            auto f = w[1].split(':');
+            return f[0] == "c" && f.size() == 3 && table.contains(f[1]) && table[f[1]] == f[2];
+        }
         return false;
     }
     void sent(const QStringList &w, bool open)
     {
         if (!open || w[0] == "deliver") return;
         if (stuck) return;
-        if (w[0] == "open") { live = true; saslNull = true; digestStep2 = false; return; }
+        if (w[0] == "open") { live = true; saslNull = true; digestStep2 = false; plainStep0 = false; return; }
         if (!live) { stuck = true; return; }
-        if (w[0] == "auth1" && knownMech(w[1])) { saslNull = false; v2 = false; s2req = false; digestStep2 = false; }
-        if (w[0] == "auth2" && knownMech(w[1])) { saslNull = false; v2 = true; s2req = true; digestStep2 = false; }
+        if (w[0] == "auth1" && knownMech(w[1])) { saslNull = false; v2 = false; s2req = false; digestStep2 = false; plainStep0 = false; }
+        if (w[0] == "auth2" && knownMech(w[1])) { saslNull = false; v2 = true; s2req = true; digestStep2 = false; plainStep0 = false; }
         if (w[0] == "abort2") s2req = false;
-        if (w[0] == "resp1" || w[0] == "resp2") digestStep2 = false;
+        if (w[0] == "resp1" || w[0] == "resp2") { digestStep2 = false; plainStep0 = false; }
     }
     void received(const Obs &o)
     {
         for (auto &e : o.a) {
             if (e.startsWith("succ2")) s2req = false;
             if (e == "chal1(r)" || e == "chal2(r)") digestStep2 = true;
+            if (e == "chal1(-)" || e == "chal2(-)") plainStep0 = true;
         }
     }
 };
@@ -582,6 +591,7 @@ static size_t runScript(const Script &sc, bool stock = false)
     if (!f.ok || !f.connectAttacker()) { fprintf(stderr, "fixture failed\n"); exit(3); }
     Oracle orc(f.checker.table);
     UbGuard g;
+    g.stock = stock; g.table = f.checker.table;
     size_t deadAt = sc.size();
     std::set<std::string> seen;
     for (size_t i = 0; i < sc.size(); i++) {
